@@ -11,6 +11,7 @@ REPLAYERS = {
     "once_replay": ("Extract.v", "_extract", ["Model/MuReplay.vo", "Model/SemReplay.vo", "Model/OnceReplay.vo"]),
     "counter_replay": ("Extract_Counter.v", "_extract_counter", ["Model/CounterReplay.vo"]),
     "waitn_replay": ("Extract_WaitN.v", "_extract_waitn", ["Model/WaitNReplay.vo"]),
+    "muwait_replay": ("Extract_MuWait.v", "_extract_muwait", ["Model/MuWaitReplay.vo"]),
 }
 OTHER_MAINS = set()
 
@@ -92,3 +93,30 @@ def replay_summary(results):
 
 MODEL_SITES = [101, 102, 103, 201, 202, 203, 301, 302, 303, 401, 402, 403, 501, 502, 503, 504, 505, 601, 602,
                701, 702, 703, 801, 802, 803, 901, 902, 903, 904, 905, 907]
+
+
+def tie(res, replayer_name, what, batches, tier, seed):
+    """batches: list of (scenario, env, n_quick, n_thorough).  Adds correspondence failures to res['broken']; returns coverage keys."""
+    base = seed * 100000
+    replayer, err = build_replayer(replayer_name)
+    if replayer is None:
+        res["broken"].append({"what": "replayer build failed (%s)" % replayer_name, "detail": err})
+        return {}
+    steps, sites, nall, nbad = 0, {}, 0, 0
+    for scen, env, nq, nt in batches:
+        exe, err = vrt_runner.build(scen)
+        if exe is None:
+            res["broken"].append({"what": "harness build failed (%s)" % scen, "detail": err})
+            continue
+        n = nq if tier == "quick" else nt
+        rr = replay_many(replayer, exe, range(base + 1, base + 1 + n), env)
+        s2, st2, mism = replay_summary(rr)
+        steps += s2
+        nall += n
+        nbad += len(mism)
+        for k, v in st2.items():
+            sites[k] = sites.get(k, 0) + v
+        for m in mism[:2]:
+            res["broken"].append({"what": "correspondence: %s and the real code disagree in lock-step" % what, "scenario": scen, "env": env,
+                                  "seed": m["seed"], "detail": m["replay"]})
+    return {"traces_validated_against_impl": nall - nbad, "lockstep_model_steps": steps, "model_sites_hit": sites}
